@@ -111,7 +111,8 @@ func concurrentBody(nsenders int) nd.Body {
 		for i := range kinds {
 			kinds[i] = senderKinds[c.Choose(len(senderKinds), "sender")]
 		}
-		handlerReplies := c.Choose(2, "handler-reply") == 1
+		replyKind := c.Choose(3, "handler-reply") // 0 none, 1 plain, 2 with stanza-named elements inside (a forwarded message, a presence): closing one of those is not the end of the reply
+		handlerReplies := replyKind != 0
 		errs := make([]error, nsenders)
 		want := make([]string, nsenders)
 		done := make([]bool, nsenders)
@@ -131,7 +132,14 @@ func concurrentBody(nsenders int) nd.Body {
 				}
 				st := xml.StartElement{Name: xml.Name{Local: "iq"}, Attr: []xml.Attr{{Name: xml.Name{Local: "type"}, Value: "result"}, {Name: xml.Name{Local: "id"}, Value: "req1"}}}
 				p := xml.StartElement{Name: xml.Name{Space: "urn:q", Local: "q"}}
-				for _, tok := range []xml.Token{st, p, xml.CharData(strings.Repeat("reply", 30)), p.End(), st.End()} {
+				toks := []xml.Token{st, p, xml.CharData(strings.Repeat("reply", 30)), p.End(), st.End()}
+				if replyKind == 2 {
+					fm := xml.StartElement{Name: xml.Name{Space: stanza.NSClient, Local: "message"}, Attr: []xml.Attr{{Name: xml.Name{Local: "to"}, Value: "c@example.org"}}}
+					fp := xml.StartElement{Name: xml.Name{Space: stanza.NSClient, Local: "presence"}}
+					fi := xml.StartElement{Name: xml.Name{Space: "urn:q", Local: "iq"}}
+					toks = []xml.Token{st, p, fm, xml.CharData("fwd"), fm.End(), fp, fp.End(), fi, fi.End(), xml.CharData(strings.Repeat("reply", 30)), p.End(), st.End()}
+				}
+				for _, tok := range toks {
 					if err := t.EncodeToken(tok); err != nil {
 						return err
 					}
@@ -162,7 +170,7 @@ func concurrentBody(nsenders int) nd.Body {
 		if setupErr != nil {
 			panic("c05: setup: " + setupErr.Error())
 		}
-		desc := fmt.Sprintf("senders=%v handler-reply=%v", kinds, handlerReplies)
+		desc := fmt.Sprintf("senders=%v handler-reply=%v", kinds, []string{"none", "plain", "with-stanza-named-elements-inside"}[replyKind])
 		c.Note("%s outcome=%s", desc, out.Kind)
 		for _, t := range out.Trace {
 			c.Note("  %s", t)
@@ -201,8 +209,11 @@ func concurrentBody(nsenders int) nd.Body {
 		for _, w := range want {
 			exp = append(exp, canon(w))
 		}
-		if handlerReplies {
+		if replyKind == 1 {
 			exp = append(exp, canon(`<iq xmlns="jabber:client" type="result" id="req1"><q xmlns="urn:q">`+strings.Repeat("reply", 30)+`</q></iq>`))
+		}
+		if replyKind == 2 {
+			exp = append(exp, canon(`<iq xmlns="jabber:client" type="result" id="req1"><q xmlns="urn:q"><message xmlns="jabber:client" to="c@example.org">fwd</message><presence xmlns="jabber:client"></presence><iq></iq>`+strings.Repeat("reply", 30)+`</q></iq>`))
 		}
 		sort.Strings(got)
 		sort.Strings(exp)
